@@ -615,6 +615,7 @@ func watchBackend(cfg *config.Config, p metrics.Provider, first chan bool) {
 		lastTable   string
 		svccfg      string
 		mancfg      string
+		goodMan     string // last manual config a table could be built with
 		customBE    string
 		once        sync.Once
 		tableBuffer = new(bytes.Buffer) // fix crash on reset before used (#650)
@@ -642,11 +643,25 @@ func watchBackend(cfg *config.Config, p metrics.Provider, first chan bool) {
 			case svccfg = <-svc:
 			case mancfg = <-man:
 			}
+			// A manual config which cannot be applied (e.g. a typo in the KV
+			// store) must not keep the changes of the registry out of the
+			// routing table: instances which have become unhealthy would
+			// receive traffic until somebody repairs the manual config.
+			// Keep using the last manual config that worked instead.
+			usedMan := mancfg
+			if mancfg != goodMan {
+				if _, err := route.NewTable(bytes.NewBufferString(svccfg + "\n" + mancfg)); err != nil {
+					log.Printf("[WARN] %s", err)
+					log.Printf("[WARN] Ignoring invalid manual config. Keeping the previous manual config")
+					usedMan = goodMan
+				}
+			}
+
 			// manual config overrides service config - order matters
 			tableBuffer.Reset()
 			tableBuffer.WriteString(svccfg)
 			tableBuffer.WriteString("\n")
-			tableBuffer.WriteString(mancfg)
+			tableBuffer.WriteString(usedMan)
 			// set nextTable here to preserve the state.  The buffer is altered
 			// when calling route.NewTable and we lose change logging (#737)
 			if nextTable = tableBuffer.String(); nextTable == lastTable {
@@ -665,6 +680,7 @@ func watchBackend(cfg *config.Config, p metrics.Provider, first chan bool) {
 			route.SetTable(t)
 			logRoutes(t, lastTable, nextTable, cfg.Log.RoutesFormat)
 			lastTable = nextTable
+			goodMan = usedMan
 			once.Do(func() { close(first) })
 		}
 	}
